@@ -43,7 +43,17 @@ RULE = ("(a) exhaustive: every vertex sequence of length 3-4 (thorough: 3-5; plu
         "(points setter, inverted, axes, name, __setstate__ with edited/foreign state, pickle-style "
         "state transfer into a used filter, copy, save+import_all into the live registry); after "
         "every step filter() must equal a fresh filter built from the public state, the exact "
-        "oracle, the Lean model and the polygon read back from save()'s text. "
+        "oracle, the Lean model and the polygon read back from save()'s text; 12 % of the steps edit "
+        "IN PLACE the vertex container the caller handed over last (move/swap/append/delete; list or "
+        "array) - judged by whatever pf.points reports afterwards. (e) histories on a dataset "
+        "(3 scalar features, 40-120 events around all polygons of the history, one power-of-two "
+        "scale) with 1-2 polygon filters attached: 3-8 edits (points setter, in-place edit of the "
+        "container handed over, inverted, axes, __setstate__, detach/attach, replace by copy, "
+        "no-op), ds.apply_filter() after each; ds.filter.polygon and ds.filter.all must equal the "
+        "conjunction of the exact oracle over the filters' CURRENT public polygons, "
+        "PolygonFilter.filter() itself and the Lean model. The characters of every saved .poly "
+        "file are parsed by the model of _load (importAllT) and the constructor ids replayed "
+        "through setUniqueId; dedupAdj / runs of copies are additional metamorphic variants. "
         "distinct = distinct (polygon, points) inputs with at least one point level with a "
         "vertex, round-trip sets needing 17 digits, histories containing a vertex-changing step.")
 TRUSTED_BASE = [
@@ -56,9 +66,16 @@ TRUSTED_BASE = [
     "the de-cythoniser (regular expressions in harness/c15.py) interprets the .pyx text as Python: "
     "C integer/double semantics are assumed to coincide with Python's on the inputs used "
     "(no overflow; `cdivision` only matters for yj == yi, which the short-circuit `and` excludes)",
-    "the text layer of .poly files (line splitting at '=', stripping blanks, `[Polygon id]` headers) "
-    "is abstracted to structured lines in the model; names are assumed to contain no line breaks "
-    "and no surrounding blanks (they are stripped on load), axes to be lower-case feature names",
+    "the text layer of .poly files is modelled over symbols (Model/PolyText.lean: header search, "
+    "split at the first '=', strip, lower-cased keys, strip('Polygon []')); what stays trusted is "
+    "the lexer in Drive/C15.lean that turns the digit run after `[Polygon `/`point` into an integer "
+    "token and the words of a point's value into float tokens (decimal value -> nearest binary64 via "
+    "`toDouble`), i.e. the decimal rendering `{:08d}` / `{:.16e}` itself is not modelled character by "
+    "character; names are assumed to contain no line breaks and no surrounding blanks (they are "
+    "stripped on load: hypothesis `Stripped`), axes to be lower-case feature names",
+    "the dataset route (e) observes `RTDCBase.apply_filter` / `Filter.update` (hash-keyed cache of "
+    "polygon results) as a black box; datasets are dict-based (`dclab.new_dataset`) with no box "
+    "filter, no invalid-event removal and no event limit, so that `filter.all == filter.polygon`",
 ]
 ASSUMPTIONS = [
     "coordinates are finite binary64 numbers of moderate magnitude (no inf/nan, no overflow in the products)",
@@ -72,8 +89,16 @@ NOT_PROVED = [
     "17 significant decimal digits round-trip every binary64 value (classical result, assumed; "
     "`roundtrip_exact` takes `fmt q = q` as hypothesis; `fmtDigits 17` is compared with the code's "
     "text codec on every coordinate written)",
-    "text parsing of .poly files (see trusted base); a name containing '=' makes the file unreadable "
-    "(recorded as open finding F15b)",
+    "character-level rendering/parsing of the numbers in .poly files (`{:08d}`, `{:.16e}`, "
+    "`int()`, numpy's float parser): number tokens are atoms in `poly_text_roundtrip`; the driver's "
+    "lexer (trusted) maps the real characters to tokens on every saved file",
+    "the hash-keyed result cache of `Filter.update` (re-evaluation of a polygon filter iff "
+    "`PolygonFilter.hash` changed) has no Lean model: that `ds.filter.polygon` follows every public "
+    "edit of an attached filter, in-place edits of its vertex container included, is "
+    "correspondence-only (part (e): exact oracle + `pf.filter()` + model of `filterPts` per filter)",
+    "`PolygonFilter.remove`, `get_instance_from_id`, `unique_id_exists` are not modelled beyond "
+    "`Reg.ids.contains`; `import_all_ids_unique` covers `_set_unique_id` + `instances.append` for "
+    "every file and every registry satisfying the invariant",
 ]
 
 FEATS = ["area_um", "deform", "aspect", "bright_avg", "pos_x", "size_x", "fl1_max", "volume"]
@@ -243,6 +268,7 @@ class Impl:
     def __init__(self):
         dclab = common.import_dclab()
         from dclab.external.skimage import pnpoly
+        self.dclab = dclab
         self.PF = dclab.PolygonFilter
         self.pnpoly = pnpoly
         self.src = SourceImpl()
@@ -447,12 +473,28 @@ def variants(poly, k):
     n = len(poly)
     s = k % n
     d = (k // 7) % n
-    return {
+    out = {
         "cyclic shift": poly[s:] + poly[:s],
         "reversal": poly[::-1],
         "repeated closing vertex": poly + [poly[0]],
         "duplicate vertex": poly[:d + 1] + [poly[d]] + poly[d + 1:],
     }
+    if k % 2 == 0:
+        out["a run of 1-3 extra copies of one vertex"] = \
+            poly[:d + 1] + [poly[d]] * (1 + k % 3) + poly[d + 1:]
+    dd = dedup_adj(poly)
+    if len(dd) != len(poly):
+        out["removal of the vertices that repeat their predecessor (zero-length edges)"] = dd
+    return out
+
+
+def dedup_adj(poly):
+    """`DclabModel.Poly.dedupAdj`: drop every vertex equal to its predecessor in the list"""
+    out = []
+    for v in poly:
+        if not out or tuple(out[-1]) != tuple(v):
+            out.append(v)
+    return out
 
 
 def judge(poly, pts, exact, skip):
@@ -648,6 +690,8 @@ def run_fileset(ctx, impl, fs, tag):
                 kw = {} if f["uid"] is None else {"unique_id": f["uid"]}
                 objs.append(PF(axes=tuple(f["axes"]), points=f["points"], inverted=f["inverted"],
                                name=f["name"], **kw))
+            created = {"ids": [int(o.unique_id) for o in objs], "counter": reg_counter(PF),
+                       "asked": [f["uid"] for f in fs["filters"]]}
             orig = []
             for o, f in zip(objs, fs["filters"]):
                 pp = np.array(probe_points(f))
@@ -682,6 +726,8 @@ def run_fileset(ctx, impl, fs, tag):
                     for i in order:
                         objs[i].save(fd, ret_fobj=True)
             orig = [orig[i] for i in order]            # from here on: in file order
+            with path.open("r", errors="replace") as fd:
+                text = fd.read()
         except BaseException as e:  # PolygonFilterError derives from BaseException
             if isinstance(e, (KeyboardInterrupt, SystemExit)):
                 raise
@@ -692,7 +738,7 @@ def run_fileset(ctx, impl, fs, tag):
         for u in fs["pre"]:
             PF(axes=("area_um", "deform"), points=[[0, 0], [1, 0], [1, 1]], unique_id=u)
         pre_ids = [int(p.unique_id) for p in PF.instances]
-        pre_counter = int(PF._instance_counter)
+        pre_counter = reg_counter(PF)
         try:
             loaded = PF.import_all(path)
         except BaseException as e:  # PolygonFilterError derives from BaseException
@@ -703,7 +749,7 @@ def run_fileset(ctx, impl, fs, tag):
             return fails, None
         obs = {"pre_ids": pre_ids, "pre_counter": pre_counter,
                "ids": [int(p.unique_id) for p in PF.instances],
-               "counter": int(PF._instance_counter), "orig": orig,
+               "counter": reg_counter(PF), "orig": orig, "created": created, "text": text,
                "loaded": [{"uid": int(g.unique_id), "axes": [str(a) for a in g.axes],
                            "inverted": bool(g.inverted), "name": str(g.name),
                            "points": np.array(g.points, dtype=np.float64)} for g in loaded]}
@@ -740,6 +786,13 @@ def run_fileset(ctx, impl, fs, tag):
     return fails, obs
 
 
+def reg_counter(PF):
+    """the id allocator's counter (a private attribute): None when it cannot be read – the
+    comparisons that need it are then skipped (NOTE), the id laws themselves do not need it"""
+    v = getattr(PF, "_instance_counter", None)
+    return int(v) if isinstance(v, (int, np.integer)) else None
+
+
 def tok(s):
     return "x" + s.encode("utf-8").hex()
 
@@ -752,15 +805,23 @@ def fileset_lines(obs):
             tok(o["name"]), " ".join(rat(v) for v in o["points"].ravel())))
     lines.append("import {} {}".format(obs["pre_counter"],
                                        ",".join(map(str, obs["pre_ids"])) or "-"))
+    # the text route: the characters that `save` wrote, parsed by the model of `_load`
+    lines.append("tfclear")
+    for tl in obs["text"].split("\n")[:-1] if obs["text"].endswith("\n") else obs["text"].split("\n"):
+        lines.append("tl " + (",".join(str(ord(c)) for c in tl) or "-"))
+    lines.append("timport {} {}".format(obs["pre_counter"],
+                                        ",".join(map(str, obs["pre_ids"])) or "-"))
+    lines.append("create " + " ".join("-" if u is None else str(u) for u in obs["created"]["asked"]))
     return lines
 
 
-def fileset_impl_line(obs):
+def fileset_impl_line(obs, hexnames=False):
     parts = []
+    tk = tok        # (both routes answer with the hex-encoded utf-8 of names and axes)
     for g in obs["loaded"]:
         parts.append("{}:{}:{}:{}:{}:{}".format(
-            g["uid"], 1 if g["inverted"] else 0, tok(g["axes"][0]), tok(g["axes"][1]),
-            tok(g["name"]), " ".join(rat(v) for v in g["points"].ravel())))
+            g["uid"], 1 if g["inverted"] else 0, tk(g["axes"][0]), tk(g["axes"][1]),
+            tk(g["name"]), " ".join(rat(v) for v in g["points"].ravel())))
     return ";".join(parts) + " | " + f"{obs['counter']} " + ",".join(map(str, obs["ids"]))
 
 
@@ -792,6 +853,63 @@ def shrink_fileset(ctx, impl, fs):
 # ======================================================================================
 # histories on one PolygonFilter object
 # ======================================================================================
+def gen_inplace_op(rng):
+    """an edit of a vertex container that the caller still holds (the list/array last handed to
+    the `points` setter or inside the state given to `__setstate__`; else the array returned by
+    the `points` getter): positions and the new vertex are relative to the current content"""
+    return {"op": "inplace", "how": rng.choice(["move", "move", "coordinate", "swap", "append",
+                                                "delete"]),
+            "i": rng.random(), "j": rng.random(),
+            "u": rng.uniform(-0.2, 1.2), "v": rng.uniform(-0.2, 1.2)}
+
+
+def inplace_modify(obj, op):
+    """apply an in-place edit to a list of vertices or an (N, 2) array; returns what was done
+    (None: the container cannot be modified, e.g. a tuple)"""
+    if isinstance(obj, tuple) or obj is None:
+        return None
+    try:
+        arr = np.array(obj, dtype=np.float64).reshape(-1, 2)
+    except Exception:  # noqa
+        return None
+    n = len(arr)
+    if n < 3:
+        return None
+    lo, hi = arr.min(axis=0), arr.max(axis=0)
+    w = [float(hi[k] - lo[k]) or float(max(abs(hi[k]), abs(lo[k]))) or 1.0 for k in (0, 1)]
+    newv = [float(lo[0] + op["u"] * w[0]), float(lo[1] + op["v"] * w[1])]
+    i = int(op["i"] * n) % n
+    j = int(op["j"] * n) % n
+    if j == i:
+        j = (i + 1) % n
+    how = op["how"]
+    is_list = isinstance(obj, list)
+    try:
+        if how == "append" and is_list:
+            obj.append(newv)
+        elif how == "delete" and is_list and n > 3:
+            del obj[i]
+        elif how == "swap":
+            if is_list:
+                obj[i], obj[j] = obj[j], obj[i]
+            else:
+                obj[[i, j]] = obj[[j, i]]
+        elif how == "coordinate" and (not is_list or isinstance(obj[i], list)):
+            if is_list:
+                obj[i][0] = newv[0]
+            else:
+                obj[i, 0] = newv[0]
+        else:
+            how = "move"
+            if is_list:
+                obj[i] = newv
+            else:
+                obj[i] = newv
+    except Exception:  # noqa  (read-only array, odd container)
+        return None
+    return how
+
+
 def gen_history(rng):
     """a random sequence of public mutations of one filter object"""
     def poly():
@@ -801,7 +919,9 @@ def gen_history(rng):
          "pseed": rng.randrange(10**9), "ops": []}
     for _ in range(rng.randint(3, 9)):
         r = rng.random()
-        if r < 0.18:
+        if r < 0.12:        # the caller keeps (and edits) the vertex container it handed over
+            op = gen_inplace_op(rng)
+        elif r < 0.18:
             op = {"op": "points", "points": poly(), "as": rng.choice(["list", "array", "tuple"])}
         elif r < 0.28:
             op = {"op": "inverted"}
@@ -868,14 +988,21 @@ def run_history(ctx, impl, h):
             pf = PF(axes=tuple(i0["axes"]), points=i0["points"], inverted=i0["inverted"],
                     name=i0["name"])
             prev_pts = []
+            given = None               # the vertex container the caller handed over last
             for step, op in enumerate([{"op": "init"}] + h["ops"]):
                 kind = op["op"]
                 expect = None          # (points, inverted) the step must establish, if known
                 if kind == "points":
-                    conv = {"list": list, "array": lambda v: np.array(v, dtype=float),
+                    conv = {"list": lambda v: [list(q) for q in v],
+                            "array": lambda v: np.array(v, dtype=float),
                             "tuple": lambda v: tuple(map(tuple, v))}[op["as"]]
-                    pf.points = conv(op["points"])
-                    expect = (op["points"], pf.inverted)
+                    given = conv(op["points"])
+                    pf.points = given
+                    expect = ([list(q) for q in op["points"]], pf.inverted)
+                elif kind == "inplace":
+                    # judged by whatever `pf.points` reports afterwards (whether the filter
+                    # aliases or copies the container is not prescribed)
+                    inplace_modify(given if given is not None else pf.points, op)
                 elif kind == "inverted":
                     pf.inverted = not pf.inverted
                 elif kind == "axes":
@@ -885,19 +1012,21 @@ def run_history(ctx, impl, h):
                 elif kind == "setstate":
                     st = pf.__getstate__()
                     if not op["keep_points"]:
-                        st["points"] = op["points"]
+                        st["points"] = [list(q) for q in op["points"]]
                     for key, skey in (("inverted", "inverted"), ("name", "name")):
                         if key in op:
                             st[skey] = op[key]
                     if "axes" in op:
                         st["axis x"], st["axis y"] = op["axes"]
                     pf.__setstate__(st)
-                    expect = (st["points"], st["inverted"])
+                    given = st["points"]
+                    expect = ([list(q) for q in st["points"]], st["inverted"])
                 elif kind == "copy":
                     want_pts, want_inv = pf.points.tolist(), bool(pf.inverted) != op["invert"]
                     q = pf.copy(invert=op["invert"])
                     if op["switch"]:
                         pf = q
+                        given = None
                         expect = (want_pts, want_inv)
                 elif kind == "transfer":
                     q = PF(axes=("area_um", "deform"), points=op["points"])
@@ -908,13 +1037,15 @@ def run_history(ctx, impl, h):
                     want = (pf.points.tolist(), bool(pf.inverted))
                     if op["switch"]:
                         pf = q
+                        given = st["points"]
                         expect = want
                 elif kind == "receive":     # this filter receives the state of another one
                     q = PF(axes=("area_um", "deform"), points=op["points"], inverted=op["inverted"])
                     st = q.__getstate__()
                     st["identifier"] = pf.unique_id
                     pf.__setstate__(st)
-                    expect = (op["points"], op["inverted"])
+                    given = st["points"]
+                    expect = ([list(q) for q in op["points"]], op["inverted"])
                 elif kind == "save_import":
                     path = ctx.workdir / "hist.poly"
                     if path.exists():
@@ -930,6 +1061,7 @@ def run_history(ctx, impl, h):
                                             f"duplicate unique id: {ids}"))
                     if op["switch"]:
                         pf = loaded[-1]
+                        given = None
                         expect = want
                 # ------------- observe -------------
                 cur_pts = [tuple(map(float, v)) for v in np.array(pf.points, dtype=float)]
@@ -1004,6 +1136,196 @@ def shrink_history(ctx, impl, h):
     if len(h["ops"]) < 2:
         return h
     return dict(h, ops=common.ddmin(h["ops"], bad, max_tests=60))
+
+
+# ======================================================================================
+# histories on a dataset that has polygon filters attached (observation through apply_filter)
+# ======================================================================================
+def gen_ds_history(rng):
+    """one dataset (3 scalar features, 40-120 events) + 1-2 polygon filters attached to it; a
+    random sequence of public edits of the filters, `apply_filter()` after each of them.  All
+    polygons of one history live on a common power-of-two scale so that the events (generated
+    around every polygon of the history) are relevant for each of them."""
+    feats = rng.sample(FEATS, 3)
+    e0 = rng.choice([0, rng.randint(-20, 20), rng.randint(-50, 30)])
+    polys = []
+
+    def poly():
+        _, _, p, scale, _ = gen_polygon(rng)
+        k = e0 - int(round(math.log2(scale)))
+        q = [list(v) for v in scaled(p, [], k)[0]]
+        polys.append(q)
+        return q
+
+    def axes():
+        return feats[:2] if rng.random() < 0.7 else rng.sample(feats, 2)
+    nf = rng.randint(1, 2)
+    h = {"feats": feats,
+         "init": [{"axes": axes(), "points": poly(), "inverted": rng.random() < 0.35}
+                  for _ in range(nf)],
+         "ops": []}
+    has_given = [False] * nf
+    for _ in range(rng.randint(3, 8)):
+        k = rng.randrange(nf)
+        r = rng.random()
+        if r < 0.28 and has_given[k]:
+            op = dict(gen_inplace_op(rng), k=k)
+        elif r < 0.45:
+            op = {"op": "points", "k": k, "points": poly(), "as": rng.choice(["list", "array", "array"])}
+            has_given[k] = True
+        elif r < 0.55:
+            op = {"op": "inverted", "k": k}
+        elif r < 0.63:
+            op = {"op": "axes", "k": k, "axes": axes()}
+        elif r < 0.78:
+            op = {"op": "setstate", "k": k, "keep_points": rng.random() < 0.3}
+            if not op["keep_points"]:
+                op["points"] = poly()
+            if rng.random() < 0.4:
+                op["inverted"] = rng.random() < 0.5
+            has_given[k] = True
+        elif r < 0.86:
+            op = {"op": "detach_attach", "k": k, "apply_between": rng.random() < 0.5}
+        elif r < 0.93:
+            op = {"op": "replace_by_copy", "k": k, "invert": rng.random() < 0.5}
+            has_given[k] = False
+        else:
+            op = {"op": "noop", "k": k}
+        h["ops"].append(op)
+    scale = math.ldexp(1.0, e0)
+    events = []
+    for q in polys:
+        events += gen_points(rng, [tuple(v) for v in q], scale, rng.randint(6, 12))
+    rng.shuffle(events)
+    mix = [rng.choice(ev) for ev in rng.sample(events, len(events))]
+    h["cols"] = [[ev[0] for ev in events], [ev[1] for ev in events], mix]
+    return h
+
+
+def run_ds_history(ctx, impl, h):
+    """returns (failures, observations); after every step `ds.apply_filter()`; then
+    `ds.filter.polygon` (and `ds.filter.all`, nothing else filters) must be the conjunction over
+    the attached filters of the even-odd containment (complemented for inverted filters) of the
+    events in the filter's CURRENT public polygon, and equal what `pf.filter()` says directly"""
+    PF = impl.PF
+    fails, obs = [], []
+    with warnings.catch_warnings():
+        warnings.simplefilter("ignore")
+        PF.clear_all_filters()
+        try:
+            feats = h["feats"]
+            ds = impl.dclab.new_dataset({f: np.array(c, dtype=np.float64)
+                                         for f, c in zip(feats, h["cols"])})
+            pfs = [PF(axes=tuple(f["axes"]), points=f["points"], inverted=f["inverted"])
+                   for f in h["init"]]
+            for pf in pfs:
+                ds.polygon_filter_add(pf)
+            given = [None] * len(pfs)
+            for step, op in enumerate([{"op": "init"}] + h["ops"]):
+                kind = op["op"]
+                k = op.get("k", 0)
+                pf = pfs[k] if k < len(pfs) else None
+                if pf is None:      # (shrunk history with fewer filters)
+                    continue
+                if kind == "points":
+                    conv = {"list": lambda v: [list(q) for q in v],
+                            "array": lambda v: np.array(v, dtype=float)}[op["as"]]
+                    given[k] = conv(op["points"])
+                    pf.points = given[k]
+                elif kind == "inplace":
+                    inplace_modify(given[k] if given[k] is not None else pf.points, op)
+                elif kind == "inverted":
+                    pf.inverted = not pf.inverted
+                elif kind == "axes":
+                    pf.axes = tuple(op["axes"])
+                elif kind == "setstate":
+                    st = pf.__getstate__()
+                    if not op["keep_points"]:
+                        st["points"] = [list(q) for q in op["points"]]
+                    if "inverted" in op:
+                        st["inverted"] = op["inverted"]
+                    pf.__setstate__(st)
+                    given[k] = st["points"]
+                elif kind == "detach_attach":
+                    ds.polygon_filter_rm(pf)
+                    if op["apply_between"]:
+                        ds.apply_filter()
+                    ds.polygon_filter_add(pf)
+                elif kind == "replace_by_copy":
+                    q = pf.copy(invert=op["invert"])
+                    ds.polygon_filter_rm(pf)
+                    ds.polygon_filter_add(q)
+                    pfs[k] = q
+                    given[k] = None
+                # ------------- observe -------------
+                ds.apply_filter()
+                got = [bool(b) for b in ds.filter.polygon]
+                got_all = [bool(b) for b in ds.filter.all]
+                n = len(got)
+                direct = [True] * n
+                want = [True] * n          # True / False / None (property silent)
+                per_filter = []
+                for pf in pfs:
+                    xs = np.array(ds[pf.axes[0]], dtype=np.float64)
+                    ys = np.array(ds[pf.axes[1]], dtype=np.float64)
+                    d = [bool(b) for b in pf.filter(xs.copy(), ys.copy())]
+                    direct = [a and b for a, b in zip(direct, d)]
+                    cur = [tuple(map(float, v)) for v in np.array(pf.points, dtype=float)]
+                    inv = bool(pf.inverted)
+                    pts = list(zip(xs.tolist(), ys.tolist()))
+                    skip = [near_py(cur, q) for q in pts]
+                    w = judge(cur, pts, False, skip)
+                    for i in range(n):
+                        wi = None if w[i] is None else (w[i] != inv)
+                        if wi is False:
+                            want[i] = False
+                        elif wi is None and want[i] is True:
+                            want[i] = None
+                    per_filter.append({"poly": cur, "inv": inv, "pts": pts, "skip": skip})
+                what = None
+                for i in range(n):
+                    if want[i] is not None and got[i] != want[i]:
+                        what = (f"after {kind} + apply_filter(): event {i} is "
+                                f"{'kept' if got[i] else 'removed'} by ds.filter.polygon, but "
+                                f"even-odd containment in the current polygon(s) of the attached "
+                                f"filter(s) says {'keep' if want[i] else 'remove'}")
+                        break
+                if what is None and got != direct:
+                    i = [a != b for a, b in zip(got, direct)].index(True)
+                    what = (f"after {kind} + apply_filter(): ds.filter.polygon differs from "
+                            f"PolygonFilter.filter() of the attached filter(s) on event {i} "
+                            f"(stale cached classification)")
+                if what is None and got_all != got:
+                    what = (f"after {kind} + apply_filter(): ds.filter.all differs from "
+                            f"ds.filter.polygon although no other filter is set")
+                if what is not None:
+                    fails.append((step, what))
+                obs.append({"kind": kind, "bits": bits(got), "filters": per_filter})
+        except BaseException as e:  # PolygonFilterError derives from BaseException
+            if isinstance(e, (KeyboardInterrupt, SystemExit)):
+                raise
+            fails.append((len(obs), f"dataset history raises {type(e).__name__}: {e}"[:200]))
+        PF.clear_all_filters()
+    return fails, obs
+
+
+def shrink_ds_history(ctx, impl, h):
+    def bad(ops):
+        return bool(run_ds_history(ctx, impl, dict(h, ops=list(ops)))[0])
+    if len(h["ops"]) < 2:
+        return h
+    h = dict(h, ops=common.ddmin(h["ops"], bad, max_tests=60))
+    n = len(h["cols"][0])
+    if n > 1:
+        def bad_ev(idx):
+            if not idx:
+                return False
+            hh = dict(h, cols=[[c[i] for i in idx] for c in h["cols"]])
+            return bool(run_ds_history(ctx, impl, hh)[0])
+        if bad_ev(list(range(n))):
+            idx = common.ddmin(list(range(n)), bad_ev, max_tests=60)
+            h = dict(h, cols=[[c[i] for i in idx] for c in h["cols"]])
+    return h
 
 
 F15_CASE = {"filters": [{"axes": ["area_um", "deform"], "inverted": False, "name": "gate",
@@ -1192,6 +1514,29 @@ def run(ctx):
             ctx.violation("spec", f"history on one PolygonFilter, step {f2[0][0]}: {f2[0][1]}",
                           dict(small, part="history"))
 
+    # ---------------- histories on a dataset with polygon filters attached ---------------
+    dsh_obs = []
+    for j in range(ctx.n(120, 1000)):
+        h = gen_ds_history(ctx.rng)
+        fails, obs = run_ds_history(ctx, impl, h)
+        dsh_obs.append(obs)
+        ctx.case(("dataset-history", h),
+                 nontrivial=any(o["op"] in ("inplace", "points", "setstate") for o in h["ops"]),
+                 sample={"dataset_history": {"feats": h["feats"], "init": h["init"],
+                                             "ops": h["ops"][:3], "events": len(h["cols"][0])},
+                         "ds.filter.polygon": [o["bits"][:24] for o in obs[:4]]}
+                 if j == 0 else None)
+        ctx.stat("dataset_histories")
+        for o in h["ops"]:
+            ctx.stat("dshist_op=" + o["op"] + ("/" + o["how"] if o["op"] == "inplace" else ""))
+        ctx.stat("dataset_history_events_classified", sum(len(o["bits"]) for o in obs))
+        if fails and not hist_failed:
+            hist_failed = True
+            small = shrink_ds_history(ctx, impl, h)
+            f2 = run_ds_history(ctx, impl, small)[0] or fails
+            ctx.violation("spec", f"dataset with polygon filter(s), step {f2[0][0]}: {f2[0][1]}",
+                          dict(small, part="dataset-history"))
+
     # ---------------- model side: one driver run ---------------------------------------
     mirror_bad = []
     if ctx.lean_ok:
@@ -1200,6 +1545,8 @@ def run(ctx):
             a = len(lines)
             lines.append("poly " + " ".join(f"{rat(x)} {rat(y)}" for x, y in c["poly"]))
             lines.append("pts 0 " + " ".join(f"{rat(x)} {rat(y)}" for x, y in c["pts"]))
+            if len(dedup_adj(c["poly"])) != len(c["poly"]):
+                lines.append("dedup")
             spans.append((a, len(lines)))
         fspans = []
         for obs in fs_obs:
@@ -1214,7 +1561,27 @@ def run(ctx):
                 lines.append("poly " + " ".join(f"{rat(x)} {rat(y)}" for x, y in o["poly"]))
                 lines.append(f"pts {1 if o['inv'] else 0} " +
                              " ".join(f"{rat(x)} {rat(y)}" for x, y in o["pts"]))
+        dspans = []
+        for obs in dsh_obs:
+            for o in obs:
+                dspans.append((len(lines), o))
+                for f in o["filters"]:
+                    lines.append("poly " + " ".join(f"{rat(x)} {rat(y)}" for x, y in f["poly"]))
+                    lines.append(f"pts {1 if f['inv'] else 0} " +
+                                 " ".join(f"{rat(x)} {rat(y)}" for x, y in f["pts"]))
         out = ctx.lean("C15", lines)
+        for a, o in dspans:
+            n = len(o["bits"])
+            mb, sk = [True] * n, [False] * n
+            for t, f in enumerate(o["filters"]):
+                row = out[a + 2 * t + 1].split(" ")[0]
+                mb = [x and row[i] == "1" for i, x in enumerate(mb)]
+                sk = [x or f["skip"][i] for i, x in enumerate(sk)]
+            d = [i for i in range(n) if not sk[i] and mb[i] != (o["bits"][i] == "1")]
+            if d and o["filters"]:
+                f = o["filters"][0]
+                mirror_bad.append(("apply_filter", {"poly": f["poly"], "pts": f["pts"],
+                                                    "exact": False}, d[0], o["bits"], bits(mb)))
         for a, o in hspans:
             mb = out[a + 1].split(" ")[0]
             d = [i for i in range(len(o["pts"])) if not o["skip"][i] and mb[i] != o["bits"][i]]
@@ -1226,6 +1593,11 @@ def run(ctx):
             if out[a] != f"ok {len(c['poly'])}" or len(ans) != 3:
                 raise common.LeanUnavailable(f"driver C15 protocol: {out[a]!r} {out[a + 1][:80]!r}")
             mbits, mnear, mspec = ans
+            if b - a == 3:
+                ctx.stat("model_dedupAdj_compared")
+                dd = dedup_adj(c["poly"])
+                if out[a + 2] != " ".join(f"{rat(x)} {rat(y)}" for x, y in dd):
+                    raise common.LeanUnavailable("driver C15: dedupAdj of model and harness differ")
             if mbits != mspec:
                 raise common.LeanUnavailable("driver C15: impl and spec layer of the model differ")
             if not c["exact"] and mnear != bits(skip):
@@ -1238,9 +1610,24 @@ def run(ctx):
         for obs, (a, b), fs in zip(fs_obs, fspans, filesets):
             if obs is None:
                 continue
-            if out[b - 1] != fileset_impl_line(obs):
+            if obs["pre_counter"] is None or obs["counter"] is None:
+                ctx.stat("filesets_without_counter_comparison")
+                continue
+            imp_line = next(i for i in range(a, b) if lines[i].startswith("import "))
+            if out[imp_line] != fileset_impl_line(obs):
                 mirror_bad.append(("import_all", fs, None, fileset_impl_line(obs)[:300],
+                                   out[imp_line][:300]))
+            elif out[b - 2] != fileset_impl_line(obs, hexnames=True):
+                mirror_bad.append(("import_all", fs, None,
+                                   "text route: " + fileset_impl_line(obs, hexnames=True)[:300],
+                                   out[b - 2][:300]))
+            elif out[b - 1] != "{} {}".format(obs["created"]["counter"],
+                                              ",".join(map(str, obs["created"]["ids"]))):
+                mirror_bad.append(("import_all", fs, None,
+                                   "constructor ids: {} {}".format(obs["created"]["counter"],
+                                                                   obs["created"]["ids"]),
                                    out[b - 1][:300]))
+            ctx.stat("poly_text_lines_parsed_by_model", obs["text"].count("\n"))
         ctx.stat("model_lines", len(lines))
 
     if mirror_bad and not (spec_failed or persist_failed or hist_failed):
@@ -1318,6 +1705,11 @@ def replay(ctx, data):
         print("answers per step:", [o["bits"] for o in obs])
         print("history failures:", fails)
         return bool(fails)
+    if rp.get("part") == "dataset-history":
+        fails, obs = run_ds_history(ctx, impl, rp)
+        print("ds.filter.polygon per step:", [o["bits"] for o in obs])
+        print("dataset history failures:", fails)
+        return bool(fails)
     if rp.get("part") == "containment":
         poly = [tuple(v) for v in rp["poly"]]
         pt = tuple(rp["point"])
@@ -1332,7 +1724,8 @@ def replay(ctx, data):
     if rp.get("part") == "mirror":
         poly = [tuple(v) for v in rp["poly"]]
         pt = tuple(rp["point"])
-        got = impl.classify(rp["route"], poly, [pt])
+        route = rp["route"] if rp["route"] in [r for r, _ in impl.routes(True)] else "filter"
+        got = impl.classify(route, poly, [pt])
         out = ctx.lean("C15", ["poly " + " ".join(f"{rat(x)} {rat(y)}" for x, y in poly),
                                f"pts 0 {rat(pt[0])} {rat(pt[1])}"])
         print("impl", bits(got), "model", out[1])
